@@ -123,7 +123,7 @@ def _two_surfaces(cx):
     return out
 
 
-def h_procs_tessellate(cx, num_procs, nsurf=2):
+def h_procs_tessellate(cx, num_procs, nsurf=2, again=False):
     """SurfaceContainer.tessellate(num_procs=k) == tessellate() (worker pool modelled by core.SerialPool)"""
     multi = geo.M('multi')
     surfs = _two_surfaces(cx)[:nsurf]
@@ -132,11 +132,16 @@ def h_procs_tessellate(cx, num_procs, nsurf=2):
         mc = multi.SurfaceContainer()
         for s in surfs:
             mc.add(shapes.clone(s))
-        mc.sample_size_u, mc.sample_size_v = 4, 5
+        mc.sample_size_u, mc.sample_size_v = (4, 5) if not again else (4, 6)
         if np_ == 1:
             mc.tessellate()
+            if again:
+                mc.tessellate(force=True, delta=False, vertex_spacing=2)
         else:
             mc.tessellate(num_procs=np_)
+            if again:
+                # a second, forced call with other options: honoured whatever the number of workers
+                mc.tessellate(num_procs=np_, force=True, delta=False, vertex_spacing=2)
         return {'vertices': [list(v.data) for v in mc.vertices], 'vertex_ids': [v.id for v in mc.vertices],
                 'faces': [list(f.data) for f in mc.faces], 'face_ids': [f.id for f in mc.faces],
                 'evalpts': [list(p) for p in mc.evalpts], 'elements': len(mc)}
@@ -177,6 +182,7 @@ def instances(tier):
     quick = tier == 'quick'
     for np_ in ((2, 4) if quick else (2, 4, 8)):
         out.append(inst('container tessellate num_procs=%d' % np_, h_procs_tessellate, timeout=900, num_procs=np_))
+    out.append(inst('container tessellate twice (forced, spacing 2) num_procs=2', h_procs_tessellate, timeout=900, num_procs=2, again=True))
     if not quick:
         out.append(inst('container tessellate 1 surface num_procs=4', h_procs_tessellate, timeout=900, num_procs=4, nsurf=1))
     out.append(inst('voxelize (2, 2, 2) padding 1/4 num_procs=2', h_procs_voxelize, timeout=1800, num_procs=2, sz=(2, 2, 2), tol=F(1, 4)))
